@@ -36,6 +36,8 @@ pub enum TKind {
     C05,
     /// delete (with and without CAS) and immediate flush racing stores
     C08,
+    /// CAS-carrying stores and deletes racing each other and plain stores
+    C02,
 }
 
 pub struct TCheck {
@@ -55,6 +57,11 @@ fn gen_program(kind: TKind, run_seed: u64, tier: Tier) -> TProgram {
     }
     if kind == TKind::C08 {
         return gen_c08_program(run_seed, tier);
+    }
+    if kind == TKind::C02 {
+        // the C03 programs (get / set / cas-set / delete with and without CAS on one key)
+        // under their own seed stream
+        return gen_program(TKind::C03, crate::rng::mix(&[run_seed, 0xc02]), tier);
     }
     let mut rng = Rng::sub(run_seed, "tprog");
     let mut knobs = Knobs::default_for(run_seed);
@@ -132,6 +139,14 @@ fn gen_program(kind: TKind, run_seed: u64, tier: Tier) -> TProgram {
             init.push(InitOp::AdvanceSecs(1));
         }
     }
+    if kind == TKind::C14 && rng.chance(1, 3) {
+        // records that have expired and not been collected when the clients start: whoever
+        // touches them first collects them, and the accounting must survive two doing so at once
+        for k in keys.iter().take(2) {
+            init.push(InitOp::Req(SymReq::store(op::SET, k, Val::Fill { byte: b'e', len: rng.range(40, 120) as u32 }, 0, 2, CasSel::Zero)));
+        }
+        init.push(InitOp::AdvanceSecs(*rng.pick(&[2u64, 3])));
+    }
     if matches!(kind, TKind::C14 | TKind::C16) && rng.chance(1, 2) {
         for (i, k) in keys.iter().enumerate().skip(2) {
             init.push(InitOp::Req(SymReq::store(op::SET, k, Val::Fill { byte: b'x', len: 10 + i as u32 * 7 }, 0, 0, CasSel::Zero)));
@@ -192,12 +207,14 @@ fn gen_program(kind: TKind, run_seed: u64, tier: Tier) -> TProgram {
                     13 => SymReq::store(op::SET, &keys[rng.usize(keys.len())], Val::Fill { byte: b'z', len: rng.range(20, 200) as u32 }, 0, 0, CasSel::Zero),
                     _ => SymReq::get(op::GETK, &keys[rng.usize(keys.len())]),
                 },
-                TKind::C05 | TKind::C08 => unreachable!(),
+                TKind::C05 | TKind::C08 | TKind::C02 => unreachable!(),
                 TKind::C14 => {
                     let k = keys[rng.usize(keys.len())].clone();
-                    match rng.below(8) {
-                        0 => SymReq::get(op::GET, &k),
-                        1 => SymReq::delete(op::DELETE, &k, CasSel::Zero),
+                    match rng.below(10) {
+                        0 | 1 => SymReq::get(op::GET, &k),
+                        2 => SymReq::delete(op::DELETE, &k, CasSel::Zero),
+                        3 => SymReq::store(op::ADD, &k, Val::Fill { byte: b'a' + tag, len: rng.range(0, 60) as u32 }, 0, 0, CasSel::Zero),
+                        4 => SymReq::counter(op::INCR, &k, 1, 7, 0, CasSel::Zero),
                         _ => SymReq::store(op::SET, &k, Val::Fill { byte: b'a' + tag, len: rng.range(0, 120) as u32 }, 0, 0, CasSel::Zero),
                     }
                 }
@@ -222,13 +239,33 @@ fn gen_program(kind: TKind, run_seed: u64, tier: Tier) -> TProgram {
             depth: rng.range(1, 3) as u8,
         }
     };
+    let mut settle = Vec::new();
+    if kind == TKind::C14 {
+        // once everybody has finished, more stores one after the other: the sequential bound
+        // (limit + the record just written) must hold again - an accounting error made during
+        // the concurrent phase shows only now
+        let mut srng = Rng::sub(run_seed, "settle");
+        if srng.chance(1, 2) {
+            for i in 0..srng.range(1, 2) {
+                let k = if srng.chance(1, 3) { keys[srng.usize(keys.len())].clone() } else { vec![b's', b'0' + i as u8] };
+                settle.push(SymReq::store(op::SET, &k, Val::Fill { byte: b'S', len: srng.range(0, 120) as u32 }, 0, 0, CasSel::Zero));
+            }
+        } else {
+            // many small records: the counter creeps up to the limit in small steps, so a
+            // counter that is too low by one record shows as limit + that record
+            let n = (knobs.memory_limit / 30 + 8).min(20);
+            for i in 0..n {
+                settle.push(SymReq::store(op::SET, &[b's', b'a' + i as u8], Val::Fill { byte: b'S', len: srng.range(0, 8) as u32 }, 0, 0, CasSel::Zero));
+            }
+        }
+    }
     TProgram {
         knobs,
         init,
         clients,
         keys,
         sched,
-        settle: Vec::new(),
+        settle,
     }
 }
 
@@ -355,7 +392,9 @@ fn gen_c05_program(run_seed: u64, tier: Tier) -> TProgram {
 ///     sees the key present.
 fn evaluate_c05(p: &TProgram, h: &THistory, viols: &mut Vec<Violation>) {
     for v in &h.init_violations {
-        viols.push(v.clone());
+        if v.prop != "C10" {
+            viols.push(v.clone());
+        }
     }
     let main = &p.keys[0];
     let mut m = h.init_model.clone();
@@ -544,6 +583,50 @@ fn gen_c08_program(run_seed: u64, tier: Tier) -> TProgram {
     }
 }
 
+/// C02 under concurrency: (1) within one lifetime of the key (no delete succeeded) every
+/// acknowledged mutation carries a CAS no other acknowledged mutation carries, and none
+/// carries the CAS the item had before; (2) a history with CAS-carrying commands that no
+/// one-at-a-time ordering explains means a CAS comparison and its store (or removal) were
+/// not one step: a stale token was accepted, or two holders of the same token both won.
+fn evaluate_c02(p: &TProgram, h: &THistory, out: &mut Outcome, viols: &mut Vec<Violation>) {
+    let main = &p.keys[0];
+    let acked = |o: &&crate::ringt::TOp| o.resp.as_ref().map(|r| r.status == wire::status::OK).unwrap_or(false);
+    let deleted = h.ops.iter().any(|o| o.req.key == *main && matches!(op_info(o.req.opcode).kind, Kind::Delete) && o.resp.as_ref().map(|r| r.status != wire::status::NOT_FOUND && r.status != wire::status::EXISTS).unwrap_or(true));
+    if !deleted {
+        let mut seen: Vec<(u64, String, bool)> = Vec::new();
+        if let Some(c) = h.init_model.current_cas(main) {
+            if h.init_model.presence(main) == crate::model::Presence::Present {
+                seen.push((c, "the item before the clients started".to_string(), false));
+            }
+        }
+        for o in h.ops.iter().filter(|o| o.req.key == *main && matches!(op_info(o.req.opcode).kind, Kind::Set)).filter(acked) {
+            let c = o.resp.as_ref().map(|r| r.cas).unwrap_or(0);
+            if c == 0 {
+                viols.push(Violation::new("C02", "zero-cas-acknowledged", format!("T{}.{} acknowledged CAS 0; history: {}", o.client, o.index, describe_history(h))));
+            }
+            // a CAS-carrying store that created the item answers supplied + 1 instead of a counter value
+            let derived = o.req.cas != 0 && c == o.req.cas.wrapping_add(1);
+            if let Some((_, who, d2)) = seen.iter().find(|(x, _, _)| *x == c) {
+                let clause = if derived || *d2 { "cas-reused-in-lifetime-begun-with-client-cas" } else { "concurrent-cas-reused-within-lifetime" };
+                viols.push(Violation::new("C02", clause, format!("T{}.{} was acknowledged with CAS {} which {} carries as well (no delete in between): two versions of the item share a token; history: {}", o.client, o.index, c, who, describe_history(h))));
+                break;
+            }
+            seen.push((c, format!("T{}.{}", o.client, o.index), derived));
+        }
+    }
+    let r = lin::check_atomic(h);
+    out.count("linearization_orders_tried", r.orders_tried);
+    if !r.ok {
+        let why = r.why.first().map(|v| format!("[{}] {}", v.signature(), v.detail)).unwrap_or_default();
+        let has_cas = h.ops.iter().any(|o| o.req.cas != 0);
+        if has_cas {
+            viols.push(Violation::new("C02", "concurrent-cas-not-atomic", format!("no one-at-a-time ordering explains a history with CAS-carrying commands: a comparison and its store or removal were not one step; closest attempt fails with {}; history: {}", why, describe_history(h))));
+        } else {
+            viols.push(Violation::new("C03", "not-linearizable", format!("no one-at-a-time ordering explains the history; closest attempt fails with {}; history: {}", why, describe_history(h))));
+        }
+    }
+}
+
 /// C08 under concurrency.
 /// Programs without a flush: the history must be linearizable; if it is not but
 /// becomes so when the deletes are left free (any answer, removed or not), the
@@ -675,7 +758,11 @@ fn describe_history(h: &THistory) -> String {
 
 fn record_size(req: &crate::wire::Request) -> u64 {
     // CacheMetaData is 24 bytes (u64 timestamp, u64 cas, u32 flags, u32 ttl)
-    24 + req.value.len() as u64
+    match op_info(req.opcode).kind {
+        // a counter's text has at most 20 digits
+        Kind::Incr | Kind::Decr => 24 + 20,
+        _ => 24 + req.value.len() as u64,
+    }
 }
 
 impl TCheck {
@@ -695,6 +782,17 @@ impl TCheck {
         for o in &h.ops {
             if let Some(pn) = &o.panic {
                 viols.push(Violation::new("C10", "panic", format!("panic inside the server: {}", pn)));
+            }
+        }
+        for v in &h.init_violations {
+            if v.prop == "C10" {
+                // a thread that asks for a shard lock it already holds blocks for ever in the real
+                // server: in the sequential phases of a program the lock wrapper reports it as a panic
+                if v.detail.contains("self-deadlock") {
+                    viols.push(Violation::new("C16", "deadlock", format!("{}; history: {}", v.detail, describe_history(h))));
+                } else {
+                    viols.push(v.clone());
+                }
             }
         }
         let clean = h.report.abort.is_none() && !h.report.timed_out;
@@ -721,6 +819,7 @@ impl TCheck {
             }
             TKind::C05 if clean => evaluate_c05(p, h, &mut viols),
             TKind::C08 if clean => evaluate_c08(p, h, out, &mut viols),
+            TKind::C02 if clean => evaluate_c02(p, h, out, &mut viols),
             TKind::C14 if clean => {
                 // no store is in progress now: the sum is at most the limit plus one
                 // record per client that stored (its largest), plus the record the
@@ -728,7 +827,13 @@ impl TCheck {
                 let limit = p.knobs.memory_limit;
                 // stores that overlapped in time with a store of another client were
                 // "finishing concurrently": one record each; of the others only the last
-                let stores: Vec<&crate::ringt::TOp> = h.ops.iter().filter(|o| matches!(op_info(o.req.opcode).kind, Kind::Set)).collect();
+                // (a conditional store that was refused wrote nothing)
+                let stores: Vec<&crate::ringt::TOp> = h
+                    .ops
+                    .iter()
+                    .filter(|o| matches!(op_info(o.req.opcode).kind, Kind::Set | Kind::Add | Kind::Incr))
+                    .filter(|o| o.resp.as_ref().map(|r| r.status == wire::status::OK).unwrap_or(!o.completed))
+                    .collect();
                 let mut per_client = 0u64;
                 let mut last_alone: Option<(u32, u64)> = None;
                 for o in &stores {
@@ -785,26 +890,43 @@ impl TCheck {
                 }
                 // the sequential bound after each settle store: an accounting error made
                 // during the concurrent phase shows only here
+                // a store whose eviction sweep finds the store empty resets the usage counter by
+                // everything accounted before it - including the record of a concurrent store that
+                // has been accounted but not yet written: the counter then under-counts by that record
+                let racing_store_bytes: u64 = stores
+                    .iter()
+                    .filter(|o| stores.iter().any(|q| q.client != o.client && q.inv <= o.ret && o.inv <= q.ret))
+                    .map(|o| record_size(&o.req))
+                    .sum();
                 for (i, (stored, reclen, acked)) in h.settle.iter().enumerate() {
                     if !*acked {
                         continue;
                     }
                     let b = limit.saturating_add(*reclen);
-                    if *stored > b && *stored <= b.saturating_add(racing_deletes * largest_record) {
+                    if *stored <= b {
+                        continue;
+                    }
+                    let with_deletes = b.saturating_add(racing_deletes * largest_record);
+                    if *stored <= with_deletes {
                         viols.push(Violation::new(
                             "C14",
                             "undercount-after-delete-store-race",
                             format!("after the sequential store #{} that followed the concurrent phase the store holds {} bytes, above limit {} + the record just written {}; explained by {} delete(s) that overlapped a store (the record is subtracted twice from the usage counter); history: {}", i, stored, limit, reclen, racing_deletes, describe_history(h)),
                         ));
-                        break;
-                    } else if *stored > b {
+                    } else if *stored <= with_deletes.saturating_add(racing_store_bytes) {
+                        viols.push(Violation::new(
+                            "C14",
+                            "undercount-after-store-store-race",
+                            format!("after the sequential store #{} that followed the concurrent phase the store holds {} bytes, above limit {} + the record just written {}; explained by stores of different clients that overlapped ({} bytes of records): a sweep that found the store empty reset the usage counter and with it the bytes of a store that was accounted but not yet written; history: {}", i, stored, limit, reclen, racing_store_bytes, describe_history(h)),
+                        ));
+                    } else {
                         viols.push(Violation::new(
                             "C14",
                             "stored-bytes-exceed-limit-after-concurrent-stores",
-                            format!("after the sequential store #{} that followed the concurrent phase (no store in progress) the store holds {} bytes; limit {} + the record just written {} = {}: the usage counter under-counts what the concurrent phase left behind; history: {}", i, stored, limit, reclen, b, describe_history(h)),
+                            format!("after the sequential store #{} that followed the concurrent phase (no store in progress) the store holds {} bytes; limit {} + the record just written {} = {}: the usage counter under-counts what the concurrent phase left behind (more than overlapping deletes and stores explain); history: {}", i, stored, limit, reclen, b, describe_history(h)),
                         ));
-                        break;
                     }
+                    break;
                 }
             }
             _ => {}
@@ -816,6 +938,7 @@ impl TCheck {
             TKind::C14 => "C14",
             TKind::C05 => "C05",
             TKind::C08 => "C08",
+            TKind::C02 => "C02",
         };
         if self.kind == TKind::C14 {
             // "eviction always terminates" is part of C14: in its own programs a run that
@@ -842,6 +965,7 @@ impl Check for TCheck {
             TKind::C14 => "C14",
             TKind::C05 => "C05",
             TKind::C08 => "C08",
+            TKind::C02 => "C02",
         }
     }
     fn runs(&self, tier: Tier) -> u64 {
@@ -1003,6 +1127,7 @@ impl Check for TCheck {
             TKind::C04 => "add / replace / append / prepend / incr / decr (cas 0 or the current CAS) mixed with get / set / delete on one key",
             TKind::C16 => "any commands: single-key, multi-key, immediate and delayed flush, stores that trigger eviction sweeps, expiry collection",
             TKind::C05 => "every command on a key whose item is just alive or just expired and not yet collected",
+            TKind::C02 => "set / cas-set (current, stale) / delete (with and without CAS) / get on one key",
             TKind::C08 => "delete (cas 0 / current / stale) racing set / cas-set / get on one key; immediate flushes racing stores over 3-4 keys",
             TKind::C14 => "stores / overwrites / appends / counter updates / deletes under random eviction with limits 0..300 bytes",
         };
